@@ -8,7 +8,7 @@ from __future__ import annotations
 import ast
 import itertools
 import z3
-from .types import (T, INT, BOOL, REAL, STR, CPS, FLAGS, NONET, TUnint, TOpt, TSeq, TTup, TUnion, TMap, TRec,
+from .types import (z3_string_value, T, INT, BOOL, REAL, STR, CPS, FLAGS, NONET, TUnint, TOpt, TSeq, TTup, TUnion, TMap, TRec,
                     V, VNone, VPy, VObj, ObjType, const_value, str_to_cps)
 
 
@@ -118,6 +118,7 @@ class Contract:
         self.merge = merge
         self.kf_region = kf_region      # known-finding region (spec expr over params): ensures hold outside it
         self.kf_id = kf_id
+        self.joined_locals = ()         # local lists only appended to and ''.join-ed: represented by their concatenation
         self.strmode = strmode
         self.allow_overapprox_regex = allow_overapprox_regex
 
@@ -240,7 +241,7 @@ class Engine:
         if t == INT and v.t == BOOL:
             return V(INT, z3.If(v.term, 1, 0))
         if t == CPS and v.t == STR and z3.is_string_value(v.term):
-            return V(CPS, str_to_cps(v.term.as_string()))
+            return V(CPS, str_to_cps(z3_string_value(v.term)))
         if t == BOOL and v.t != BOOL and v.truth_only:
             return V(BOOL, v.term)
         if isinstance(t, TSeq) and isinstance(v.t, TSeq) and t.elem == REAL and v.t.elem == INT:
@@ -268,6 +269,8 @@ class Engine:
                 return V(STR, z3.StringVal(obj))
             if t == CPS:
                 return V(CPS, str_to_cps(obj))
+        if isinstance(obj, list) and not obj and t == CPS:
+            return V(CPS, z3.Empty(CPS.sort()))
         if isinstance(obj, (tuple, list)) and isinstance(t, TSeq):
             items = [self.lift_py(o, t.elem, node) for o in obj]
             if any(i is None for i in items):
@@ -385,8 +388,35 @@ class Engine:
         return self.truthy(v)
 
     # ------------------------------------------------------------------ top level
+    def check_joined_locals(self):
+        """A local list may be represented by the concatenation of its items only if every use is
+        `x = []`, `x.append(e)` or `''.join(x)`."""
+        names = set(self.c.joined_locals)
+        if not names:
+            return
+        ok_nodes = set()
+        for n in ast.walk(self.fnode):
+            if isinstance(n, ast.Call) and isinstance(n.func, ast.Attribute):
+                if n.func.attr == 'append' and isinstance(n.func.value, ast.Name) and n.func.value.id in names:
+                    ok_nodes.add(id(n.func.value))
+                if n.func.attr == 'join' and isinstance(n.func.value, ast.Constant) and n.func.value.value == '' and \
+                        len(n.args) == 1 and isinstance(n.args[0], ast.Name) and n.args[0].id in names:
+                    ok_nodes.add(id(n.args[0]))
+            if isinstance(n, (ast.Assign, ast.AnnAssign)):
+                tgts = n.targets if isinstance(n, ast.Assign) else [n.target]
+                for t_ in tgts:
+                    if isinstance(t_, ast.Name) and t_.id in names:
+                        v = n.value
+                        if not (isinstance(v, ast.List) and not v.elts):
+                            raise Unsupported(f'joined local {t_.id} is assigned something other than []', n)
+                        ok_nodes.add(id(t_))
+        for n in ast.walk(self.fnode):
+            if isinstance(n, ast.Name) and n.id in names and id(n) not in ok_nodes:
+                raise Unsupported(f'joined local {n.id} is used other than by append / \'\'.join (line {n.lineno})', n)
+
     def run(self):
         c = self.c
+        self.check_joined_locals()
         st = State()
         args = self.fnode.args
         pnames = [a.arg for a in args.posonlyargs + args.args + args.kwonlyargs]
@@ -898,7 +928,7 @@ class Engine:
         itv = self.ev(s.iter, st)
         outs0 = self.flush_raises(st)
         # constant iterables are unrolled
-        if isinstance(itv, VPy) and isinstance(itv.obj, (tuple, list)):
+        if isinstance(itv, VPy) and isinstance(itv.obj, (tuple, list)) and not (itv.obj and itv.obj[0] == 'enumerate'):
             states = [st]
             result = list(outs0)
             for item in itv.obj:
@@ -915,6 +945,13 @@ class Engine:
                 states = nxt
             return result + [Outcome('fall', x) for x in states]
         var = s.target.id if isinstance(s.target, ast.Name) else None
+        enum = False
+        if isinstance(itv, VPy) and isinstance(itv.obj, tuple) and itv.obj and itv.obj[0] == 'enumerate':
+            enum = True
+            itv = itv.obj[1]
+            if not (isinstance(s.target, ast.Tuple) and len(s.target.elts) == 2):
+                raise Unsupported('enumerate() needs a two-name target', s)
+            var = s.target.elts[1].id if isinstance(s.target.elts[1], ast.Name) else None
         k, spec = self.loop_spec(s, var)
         if not (isinstance(itv, V) and isinstance(itv.t, (TSeq,)) or (isinstance(itv, V) and itv.t in (CPS, STR))):
             raise Unsupported(f'iteration over {itv!r}', s)
@@ -943,7 +980,11 @@ class Engine:
             # iterating a str yields one-character strings; they are represented by their code point (cps of len 1)
             elem = V(CPS, z3.Unit(seq.term[i]))
             sb.pc.append(z3.And(seq.term[i] >= 0, seq.term[i] <= 0x10FFFF))
-        self.assign(s.target, elem, sb)
+        if enum:
+            self.assign(s.target.elts[0], V(INT, i), sb)
+            self.assign(s.target.elts[1], elem, sb)
+        else:
+            self.assign(s.target, elem, sb)
         result = outs0 + [Outcome('fall', se)]
         for o in self.exec_block(s.body, sb):
             if o.kind in ('fall', 'continue'):
@@ -995,12 +1036,16 @@ class Engine:
 
     def ex_List(self, e, st):
         items = [self.ev(x, st) for x in e.elts]
+        if not items:
+            return VPy([])
         return VPy(list(i.obj if isinstance(i, VPy) else i for i in items))
 
     def ex_Set(self, e, st):
         return self.ex_Tuple(e, st)
 
     def ex_JoinedStr(self, e, st):
+        if self.world.strmode == 'cps':
+            return self.joined_cps(e, st)
         parts = []
         for p in e.values:
             if isinstance(p, ast.Constant):
@@ -1022,6 +1067,33 @@ class Engine:
         if len(parts) == 1:
             return parts[0]
         return V(STR, z3.Concat(*[p.term for p in parts]))
+
+    def joined_cps(self, e, st):
+        parts = []
+        for p in e.values:
+            if isinstance(p, ast.Constant):
+                parts.append(str_to_cps(p.value))
+                continue
+            v = self.ev(p.value, st)
+            spec = None
+            if p.format_spec is not None:
+                if len(p.format_spec.values) == 1 and isinstance(p.format_spec.values[0], ast.Constant):
+                    spec = p.format_spec.values[0].value
+                else:
+                    raise Unsupported('computed format spec', e)
+            if p.conversion != -1:
+                raise Unsupported('f-string conversion', e)
+            if spec == 'x' and isinstance(v, V) and v.t == INT:
+                parts.append(self.world.hex_cps(v.term))
+            elif spec is None and isinstance(v, V) and v.t == CPS:
+                parts.append(v.term)
+            elif spec is None and isinstance(v, V) and v.t == STR and z3.is_string_value(v.term):
+                parts.append(str_to_cps(z3_string_value(v.term)))
+            else:
+                raise Unsupported(f'f-string part {v!r} with format {spec!r} in code-point mode', e)
+        if not parts:
+            return V(CPS, z3.Empty(CPS.sort()))
+        return V(CPS, parts[0] if len(parts) == 1 else z3.Concat(*parts))
 
     def ev_fstring_parts(self, e, st):
         for p in e.values:
